@@ -24,10 +24,11 @@ from fractions import Fraction
 
 import numpy as np
 
-from runner import Infra
+from runner import Infra, TieBroken
 
 ID = "C20"
-LEAN_MODULES = ["PyYetiVerif.Props.C20", "PyYetiVerif.Audit.C20"]
+LEAN_MODULES = ["PyYetiVerif.Props.C20", "PyYetiVerif.Props.C20Api", "PyYetiVerif.Props.C20Root", "PyYetiVerif.Props.C20Limit",
+                "PyYetiVerif.Audit.C20"]
 AUDIT_FILE = "PyYetiVerif/Audit/C20.lean"
 THEOREMS = [
     "PyYetiVerif.C20." + n
@@ -36,7 +37,16 @@ THEOREMS = [
         "rank_extremal rank_succ_fails rank_extremal_ge tie_example "
         "n_extremal n_extremal_adjacent n_eq_r n_total confidence_eventually n_exists queries_consistent "
         "ksingle_def ksingle_strictMono_c ksingle_strictMono_p getr_fixed_point getr_strictMono getr_pos "
-        "kdouble_def kdouble_strictMono_c kdouble_strictMono_p"
+        "kdouble_def kdouble_strictMono_c kdouble_strictMono_p "
+        # public entry points (Props/C20Api.lean)
+        "order_stats_dispatch order_stats_dispatch_tie order_stats_absent order_stats_broadcast_r order_stats_broadcast_n "
+        "order_stats_broadcast_p order_stats_broadcast_c order_stats_scalar order_stats_broadcast_readAt "
+        "kfactor_elementwise_ksingle kfactor_elementwise_kdouble arguments_unchanged stats_effects_safe stats_consts_tie "
+        # root finders (Props/C20Root.lean)
+        "tail_strictMono_q bisect_brackets_root p_query_defined_iff p_query_bracket p_query_exists_unique p_query_close "
+        "newton_monotone_convex "
+        # large samples (Props/C20Limit.lean)
+        "ksingle_rate ksingle_tendsto ksingle_ge_normal"
     ).split()
 ]
 TRUSTED = [
@@ -89,6 +99,18 @@ MANIFEST = {
 }
 
 TIE = 1e-9
+
+
+def translate(ctx):
+    """constants, switch points and effect skeletons of pyyeti/stats.py -> Generated/C20Stats.lean (Python ast only)"""
+    from translate import c20_stats as tr
+
+    try:
+        c = tr.run(ctx.repo, ctx.lean)
+    except tr.Unparsable as e:
+        raise TieBroken("stats.py: %s" % e)
+    ctx.extra["stats_consts"] = {k: v for k, v in c.items() if k != "effects"}
+    return ["C20Stats"]
 
 # ---------------------------------------------------------------------------------------
 # helpers
